@@ -140,6 +140,27 @@ DesignStepR(s, rep, ref) == IF rep.kind = "air" THEN AirStep(s, rep.par, rep.ts,
 DesignStep(s, rep) == DesignStepR(s, rep, RxRef)
 
 (***************************************************************************)
+(* Moving receiver reference (`--update-position` of jet1090, always on in *)
+(* decode1090): decode_position's `update_reference` callback.  After an   *)
+(* AIRBORNE report has been given a position, the caller's predicate is    *)
+(* asked about the report (jet1090: altitude known and < 5000 ft,          *)
+(* decode1090: < 1000 ft); if it holds the receiver reference becomes that *)
+(* position (cpr.rs:510-517).  Surface reports never move it, a report     *)
+(* left without a position never moves it.  `low` = the predicate's answer.*)
+(***************************************************************************)
+RefStep(ref, rep, out, low) ==
+  IF rep.kind = "air" /\ out # NONE /\ low THEN out ELSE ref
+
+\* one delivered report under a moving reference: [st, out, ref]
+DesignStepM(s, rep, ref, low) ==
+  LET res == DesignStepR(s, rep, ref)
+  IN  [st |-> res.st, out |-> res.out, ref |-> RefStep(ref, rep, res.out, low)]
+
+(* premise of the property for a surface report under a moving reference:  *)
+(* the reference in force when it is delivered is within 40 NM of it       *)
+SurfAllowedM(lat, ref) == ref # NONE /\ AbsU(lat - ref) <= NM40
+
+(***************************************************************************)
 (* Property level.                                                         *)
 (***************************************************************************)
 AbsOk(rep, out) == out = NONE \/ out = rep.lat
